@@ -148,6 +148,55 @@ def identifier(ctx, rep, prog):
                     rep.fail("T-IDENT", "%s|T-IDENT|%s,%s" % (key, a, b), "ordering %s, expected %s%s" % (_o(got), _o(exp), note),
                              example="1.0.0-rc.3 vs 1.0.0-rc.2-migration" if a[0] != b[0] else None)
     rep.analysed_item("derived Ord/PartialOrd/PartialEq of Identifier interpreted on 8 variant/order classes each")
+    # class representatives of identifier spellings (letter case, digit runs inside tags, digit-led tags, hyphen): the
+    # order must be numeric < alphanumeric, numerics by value, alphanumerics by bytes — and eq exactly when cmp is Equal
+    from ..interp import StrV
+    nums = [0, 1, 2, 10]
+    strs = ["a", "A", "B", "alpha", "ALPHA", "rc9", "rc10", "1a", "-"]
+    items = [("n", x) for x in nums] + [("s", x) for x in strs]
+
+    def mkc(kind, val):
+        return Adt(ID, NUM, (val,)) if kind == "n" else Adt(ID, ALPHA, (StrV(val),))
+
+    def ref(a, b):
+        if a[0] != b[0]:
+            return -1 if a[0] == "n" else 1
+        if a[0] == "n":
+            return (a[1] > b[1]) - (a[1] < b[1])
+        x, y = a[1].encode(), b[1].encode()
+        return (x > y) - (x < y)
+    cmp_key = "<Identifier as std::cmp::Ord>::cmp"
+    eq_key = "<Identifier as std::cmp::PartialEq>::eq"
+    if prog.has_body(cmp_key) and prog.has_body(eq_key):
+        bad = 0
+        for a in items:
+            for b in items:
+                out = {}
+                for key in (cmp_key, eq_key):
+                    it = Interp(prog, Policy())
+                    try:
+                        out[key] = it.call_body(key, [Ptr(Cell(mkc(*a))), Ptr(Cell(mkc(*b)))])
+                    except Inconclusive as e:
+                        rep.inconc("T-IDENT (representatives): " + e.reason, e.where)
+                        out = None
+                        break
+                if out is None:
+                    break
+                got, geq = ordering_to_int(out[cmp_key]), out[eq_key]
+                exp = ref(a, b)
+                if got == exp and geq == (exp == 0):
+                    rep.ok("T-IDENT")
+                else:
+                    bad += 1
+                    if bad <= 3:
+                        what = "ordering %s, expected %s" % (_o(got), _o(exp)) if got != exp else \
+                            "cmp says %s but == says %s" % (_o(got), geq)
+                        rep.fail("T-IDENT", "%s|T-IDENT|representatives: %s" % (cmp_key, "order" if got != exp else "eq and cmp disagree"),
+                                 "identifiers %r and %r: %s" % (a[1], b[1], what), example="1.0.0-%s vs 1.0.0-%s" % (a[1], b[1]))
+            else:
+                continue
+            break
+        rep.analysed_item("Identifier cmp / eq on %d x %d concrete class representatives" % (len(items), len(items)))
 
 
 def classification(ctx, rep, prog):
